@@ -1,4 +1,4 @@
-//go:build c19
+//go:build c19 || c08 || c10
 
 package main
 
